@@ -746,6 +746,57 @@ def generators_consumed_twice(func: ast.AST) -> List[str]:
     return out
 
 
+def late_bound_lazies(func: ast.AST) -> List[str]:
+    """generator expressions / lambdas created inside a loop that are KEPT (assigned to a name, an attribute or a container slot, appended, yielded ...)
+    instead of being consumed on the spot, and whose body reads a name that the loop re-binds (the loop target or a variable assigned in the loop body):
+    when they finally run, they see the value of the LAST iteration.  (The outermost iterable of a generator expression is evaluated eagerly and does not count.)"""
+    out: List[str] = []
+    parent = {id(ch): n for n in ast.walk(func) for ch in ast.iter_child_nodes(n)}
+    eaters = {"list", "sum", "sorted", "set", "tuple", "any", "all", "max", "min", "dict", "frozenset", "len", "next", "enumerate", "zip", "map", "filter", "reversed", "iter"}
+    for lp in [n for n in walk_no_nested(func) if isinstance(n, (ast.For, ast.While))]:
+        rebound = {n.id for b in lp.body for n in ast.walk(b) if isinstance(n, ast.Name) and isinstance(n.ctx, ast.Store)}
+        if isinstance(lp, ast.For):
+            rebound |= {n.id for n in ast.walk(lp.target) if isinstance(n, ast.Name)}
+        for g in [n for b in lp.body for n in ast.walk(b) if isinstance(n, (ast.GeneratorExp, ast.Lambda))]:
+            own = {n.id for gen in getattr(g, "generators", []) for n in ast.walk(gen.target) if isinstance(n, ast.Name)}
+            if isinstance(g, ast.Lambda):
+                own |= {a.arg for a in g.args.args + g.args.kwonlyargs}
+                body_nodes = list(ast.walk(g.body))
+            else:
+                body_nodes = [n for n in ast.walk(g.elt)] + [n for gen in g.generators for c in gen.ifs for n in ast.walk(c)] + [n for gen in g.generators[1:] for n in ast.walk(gen.iter)]
+            free = {n.id for n in body_nodes if isinstance(n, ast.Name) and isinstance(n.ctx, ast.Load)} - own
+            captured = sorted(free & rebound)
+            if not captured:
+                continue
+            # kept or consumed?  climb through tuples / parentheses to the statement that uses it
+            cur, p_ = g, parent.get(id(g))
+            while isinstance(p_, (ast.Tuple, ast.List, ast.Dict, ast.Starred, ast.IfExp)):
+                cur, p_ = p_, parent.get(id(p_))
+            kept = False
+            if isinstance(p_, (ast.Assign, ast.AnnAssign, ast.AugAssign)) and getattr(p_, "value", None) is cur:
+                kept = True
+            elif isinstance(p_, ast.Call) and isinstance(p_.func, ast.Attribute) and p_.func.attr in ("append", "add", "setdefault", "insert", "extend") and cur in p_.args and isinstance(g, ast.Lambda):
+                kept = True
+            elif isinstance(p_, ast.Call) and isinstance(p_.func, ast.Attribute) and p_.func.attr in ("append", "add", "setdefault", "insert") and cur in p_.args:
+                kept = True
+            elif isinstance(p_, (ast.Yield, ast.Return)):
+                kept = isinstance(p_, ast.Yield)
+            if kept and isinstance(p_, (ast.Assign, ast.AnnAssign)) and isinstance(g, ast.GeneratorExp):
+                # a generator bound to a plain local that is consumed later IN THE SAME iteration is fine: look for a consumer inside the loop body
+                tg = p_.targets[0] if isinstance(p_, ast.Assign) else p_.target
+                if isinstance(tg, ast.Name):
+                    uses = [n for b in lp.body for n in ast.walk(b) if isinstance(n, ast.Name) and n.id == tg.id and isinstance(n.ctx, ast.Load)]
+                    if uses:
+                        kept = False
+            if kept and isinstance(g, ast.Lambda) and isinstance(p_, (ast.Assign, ast.AnnAssign)):
+                tg = p_.targets[0] if isinstance(p_, ast.Assign) else p_.target
+                if isinstance(tg, ast.Name):
+                    kept = False          # a local helper lambda used within the iteration
+            if kept:
+                out.append(f"{'generator' if isinstance(g, ast.GeneratorExp) else 'lambda'} at line {g.lineno} is kept beyond its iteration and reads {captured} (re-bound by the loop at line {lp.lineno})")
+    return out
+
+
 # ----------------------------------------------------------------------------------------------------------------
 # virtual inlining of private helpers ("extract method" is not a behaviour change)
 # ----------------------------------------------------------------------------------------------------------------
